@@ -24,7 +24,7 @@ func init() {
 			"if the forward call succeeds, length/order/altitude bits are preserved in both directions, failures surface as errors never panics; (c) unknown codes (0, negatives, 6677, random) give a conversion error and an empty list, " +
 			"also when the same unknown code is used twice in a row after a successful conversion, in both directions. Non-trivial = list with >= 1 point; distinct by (code, points).",
 		Assume: []string{"R = 6378137 m; forward tolerance 1e-6 m + R*pi/180*1e-10 (divided by cos(lat) for Y), round trip 2e-10 deg (latitudes are stored at 1e-10 deg resolution)", "regional codes are exercised only with points their area test accepts (wgs84.EPSG().CodesCover)"},
-		N:      tierN(25_000, 1_000_000),
+		N:      tierN(50_000, 1_500_000),
 		Floor:  tierN(500, 5000),
 		Init:   c18Init,
 		Run:    runC18,
